@@ -873,6 +873,14 @@ func (s *session) startReadAndHandle() {
 		}
 		err = s.socket.ReadMessage(ctx.input)
 		if (err != nil && ctx.GetBodyCodec() == codec.NilCodecID) || !s.goonRead() {
+			if ctx.callCmd != nil {
+				// The frame was bound to a pending call, whose lock is held since bindReply:
+				// complete the call here, otherwise the call and readDisconnected wait forever.
+				if err != nil && ctx.callCmd.stat.OK() {
+					ctx.callCmd.stat = statBadMessage.Copy(err)
+				}
+				ctx.handleReply()
+			}
 			s.peer.putContext(ctx, false)
 			return
 		}
